@@ -75,8 +75,10 @@ void GammaDiscreteDistribution::fireParameterChanged(const ParameterList& parame
   {
     offset_ = getParameterValue("offset");
     // The domain follows the offset, within the restrictions applied so far.
-    intMinMax_->setLowerBound(offset_, true);
-    *intMinMax_ &= restriction_;
+    if (restriction_.getLowerBound() > offset_)
+      intMinMax_->setLowerBound(restriction_.getLowerBound(), restriction_.strictLowerBound());
+    else
+      intMinMax_->setLowerBound(offset_, true);
   }
   ga1_ = exp(RandomTools::lnGamma(alpha_ + 1) - RandomTools::lnGamma(alpha_));
 
